@@ -278,7 +278,7 @@ func K8() *Entry {
 		F("PlainName", Cmt(" PlainName is the name of the package to install\n package main\n")), F("lower_snake_name"), F("single"), F("WithDigits2"),
 		// lower_snake segments that end in digits or are single letters: the attribute name is the proto name itself
 		F("ipv4_addr"), F("sha256_sum", Sc(ir.Bytes)), F("s3_bucket"), F("a_b_c", Sc(ir.Int32)), F("x2_y2_z", Rep()), F("Tagged", JSON("tagged_name")), F("TaggedOmit", JSON("tagged_omit,omitempty")),
-		F("TagDash", JSON("-")), F("TagEmpty", JSON("")), F("TagDashOmit", JSON("-,omitempty")),
+		F("TagDash", JSON("-")), F("TagEmpty", JSON("")), F("TagDashOmit", JSON("-,omitempty")), F("TagOnlyOmit", JSON(",omitempty")), F("tag_only_string", Sc(ir.Int64), JSON(",string")),
 		F("ID", JSON("id")), F("AWSRoleARNs", Rep()), F("DurMP", Sc(ir.Int64)), F("Overridden", JSON("tag_loses")),
 		F("ByTypeKey"), F("Child", MsgT("NamedChild")), F("Children", MsgT("NamedChild"), Rep()),
 		// json tags and overrides are taken verbatim: camelCase, acronyms, hyphens
@@ -528,7 +528,9 @@ func K15() *Entry {
 	any := M("Any", F("TypeUrl"), F("Payload", Sc(ir.Bytes)))
 	holder := M("Shelf", F("Title"), F("Labels", MapOf()), F("Entries", MsgT("LabelEntry"), Rep()), F("ByName", MsgT("PairEntry"), MapOf()), F("Extra", MsgT("Any")),
 		// singular message attributes named like the fields of a map entry, next to maps of the same message
-		F("value", MsgT("PairEntry")), F("key", MsgT("PairEntry"), NonNull()), F("ByKey", MsgT("PairEntry"), MapOf(), NonNull()))
+		F("value", MsgT("PairEntry")), F("key", MsgT("PairEntry"), NonNull()), F("ByKey", MsgT("PairEntry"), MapOf(), NonNull()),
+		// ... and next to a map of another message
+		F("Widgets", MsgT("Any"), MapOf()))
 	// a selected type all of whose declared fields are excluded: its schema consists of injected fields
 	gamma := M("Gamma", F("Secret"), F("Token"))
 	f := file("k15", holder, entry, pair, any, gamma)
